@@ -1,4 +1,142 @@
-/- oracle_c04 — placeholder driver (replaced when the C04 model is added). -/
+/-
+  oracle_c04 — line-protocol driver for Model.Connect (gocoin's block connection, `Cfg.current`) and
+  Spec.Connect (sequential ConnectBlock).  The oracle is STATEFUL: it keeps the model's record-level DB and the
+  spec's coin map; a `block` request runs both on the same candidate and advances each state iff that side
+  accepted.  Byte strings are hex, "-" = empty.
+    reset                                            -> ok
+    block <hash> <height> <time> <mtp> <p2sh> <wit> <csv> <ntx> TX*      -> m=ok:<sigopscost>|m=err:<E> s=ok|s=err:<E>
+       TX  = <txid> <version> <locktime> <nowitsize> <nin> <nout> IN* OUT*
+       IN  = <prevhash> <vout> <scriptsig> <sequence> <scriptOk:0|1> <nwit> <witness item>*
+       OUT = <value> <script>
+    dump                                             -> <n> e|e|…   with e = txid:vout,value,height,cb,script   (model DB)
+    sdump                                            -> same for the spec's map
+    reward <height>                                  -> <GetBlockReward> <spec subsidy>
+    sigops <script> <accurate:0|1>                   -> <GetSigOpCount> <spec count (no OP_RETURN stop)>
+    p2shsig <scriptSig>                              -> <GetP2SHSigOpCount>
+    witsig <scriptSig> <pkscript> <nwit> <item>*     -> <CountWitnessSigOps>
+    chktx TX                                         -> ok | err:<E>          (Tx.CheckTransaction)
+-/
+import GocoinV.Spec.Connect
 import GocoinV.Base.Proto
-open GocoinV
-def main : IO Unit := Proto.serve () (fun _ _ => ((), "bad-op"))
+open GocoinV GocoinV.Connect
+
+structure OState where
+  db : DB := []
+  su : Spec.Connect.Utxo := []
+
+abbrev P := StateT (List String) Option
+
+def tok : P String := do
+  match (← get) with
+  | [] => failure
+  | t :: r => set r; pure t
+
+def pnat : P Nat := do
+  let t ← tok
+  match t.toNat? with
+  | some n => pure n
+  | none => failure
+
+def pbool : P Bool := do
+  let t ← tok
+  if t == "1" then pure true else if t == "0" then pure false else failure
+
+def phex : P Bytes := do
+  match Hex.decode (← tok) with
+  | some b => pure b
+  | none => failure
+
+def rep {α : Type} (p : P α) : Nat → P (List α)
+  | 0 => pure []
+  | n+1 => do
+    let a ← p
+    let r ← rep p n
+    pure (a :: r)
+
+def pIn : P TxIn := do
+  let h ← phex; let v ← pnat; let ss ← phex; let seq ← pnat; let ok ← pbool
+  let nw ← pnat
+  let w ← rep phex nw
+  pure { prev := ⟨h, v⟩, scriptSig := ss, sequence := seq, witness := w, scriptOk := ok }
+
+def pOut : P TxOut := do
+  let v ← pnat; let s ← phex
+  pure ⟨v, s⟩
+
+def pTx : P Tx := do
+  let id ← phex; let ver ← pnat; let lt ← pnat; let nws ← pnat
+  let ni ← pnat; let no ← pnat
+  let ins ← rep pIn ni
+  let outs ← rep pOut no
+  pure { txid := id, version := ver, ins := ins, outs := outs, lockTime := lt, noWitSize := nws }
+
+def pBlock : P Block := do
+  let h ← phex; let height ← pnat; let time ← pnat; let mtp ← pnat
+  let p2sh ← pbool; let wit ← pbool; let csv ← pbool
+  let n ← pnat
+  let txs ← rep pTx n
+  pure { hash := h, height := height, time := time, mtp := mtp, p2sh := p2sh, witness := wit, csv := csv, txs := txs }
+
+def full {α : Type} (p : P α) (toks : List String) : Option α :=
+  match p.run toks with
+  | some (a, []) => some a
+  | _ => none
+
+def entry (txid : Bytes) (vout value height : Nat) (cb : Bool) (scr : Bytes) : String :=
+  s!"{Hex.encodeRaw txid}:{vout},{value},{height},{Proto.boolStr cb},{Hex.encodeRaw scr}"
+
+def idxOuts (outs : List (Option TxOut)) : List (Nat × TxOut) :=
+  (outs.zipIdx).filterMap fun (o, i) => o.map fun x => (i, x)
+
+def dumpDB (db : DB) : String :=
+  let es := db.flatMap fun (_, r) => (idxOuts r.outs).map fun (i, o) => entry r.txid i o.value r.height r.coinbase o.script
+  s!"{es.length} {"|".intercalate es}"
+
+def dumpSpec (u : Spec.Connect.Utxo) : String :=
+  let es := u.map fun (p, c) => entry p.hash p.vout c.value c.height c.coinbase c.script
+  s!"{es.length} {"|".intercalate es}"
+
+def step (st : OState) (toks : List String) : OState × String :=
+  let bad := (st, "bad-op")
+  match toks with
+  | ["reset"] => ({}, "ok")
+  | "block" :: rest =>
+    match full pBlock rest with
+    | none => bad
+    | some b =>
+      let (db', mr) := match connect Cfg.current st.db b with
+        | .ok (d, so) => (d, s!"m=ok:{so}")
+        | .error e => (st.db, s!"m=err:{reprStr e}")
+      let (su', sr) := match Spec.Connect.connectBlock st.su b with
+        | .ok u => (u, "s=ok")
+        | .error e => (st.su, s!"s=err:{reprStr e}")
+      ({ db := db', su := su' }, s!"{mr} {sr}")
+  | ["dump"] => (st, dumpDB st.db)
+  | ["sdump"] => (st, dumpSpec st.su)
+  | ["reward", h] =>
+    match h.toNat? with
+    | some h => (st, s!"{getBlockReward h} {Spec.Connect.subsidy h}")
+    | none => bad
+  | ["sigops", s, a] =>
+    match Hex.decode s with
+    | some s => (st, s!"{getSigOpCount s (a == "1")} {Spec.Connect.sigOpCount s (a == "1")}")
+    | none => bad
+  | ["p2shsig", s] =>
+    match Hex.decode s with
+    | some s => (st, s!"{getP2SHSigOpCount s}")
+    | none => bad
+  | "witsig" :: rest =>
+    let p : P Nat := do
+      let ss ← phex; let pk ← phex; let n ← pnat
+      let w ← rep phex n
+      pure (countWitnessSigOps { prev := default, scriptSig := ss, sequence := 0, witness := w, scriptOk := true } pk)
+    match full p rest with
+    | some n => (st, s!"{n}")
+    | none => bad
+  | "chktx" :: rest =>
+    match full pTx rest with
+    | some tx => (st, match checkTransaction Cfg.current tx with | .ok _ => "ok" | .error e => s!"err:{reprStr e}")
+    | none => bad
+  | _ => bad
+
+def main : IO Unit := Proto.serve ({} : OState) step
